@@ -146,6 +146,31 @@ def perturbed_cases(draw):
     return {"t": gen.texel_str(t), "input": inp, "map": m2, "ops": ops, "prefix": "SUPER_"}
 
 
+@st.composite
+def partial_cases(draw):
+    """
+    Outside the PretextView model: baits cover only a run of contigs in the middle of a scaffold
+    (found/missing patterns inside one scaffold), contigs often abut without a gap.
+    """
+    t = draw(gen.texel(small=True))
+    inp = draw(gen.input_assembly(t, max_scaffolds=3, max_contigs=7, gap_skip=draw(st.sampled_from([1, 3, 4]))))
+    m = []
+    for name, rows in inp:
+        spans = [sp for sp, r in zip(ref.layout(rows), rows) if r[0] == "F"]
+        n_baits = draw(st.integers(0, 2))
+        for _ in range(n_baits):
+            i = draw(st.integers(0, len(spans) - 1))
+            j = draw(st.integers(i, len(spans) - 1))
+            a = max(1, spans[i][0] + draw(st.integers(-2, 2)))
+            b = max(a, spans[j][1] + draw(st.integers(-2, 2)))
+            tags = ["Painted"] if draw(st.booleans()) else []
+            m.append([f"Scaffold_{len(m) + 1}", [["F", name, a, b, draw(st.sampled_from([1, 1, -1])), tags]]])
+    if not m:
+        name, rows = inp[0]
+        m.append(["Scaffold_1", [["F", name, 1, max(1, ref.rows_len(rows) // 2), 1, []]]])
+    return {"t": gen.texel_str(t), "input": inp, "map": m, "prefix": "SUPER_"}
+
+
 SUBS = [
     Sub("model", kind="hyp", strategy=model_cases, body=body_model,
         budget={"quick": 20000, "thorough": 400000},
@@ -153,6 +178,9 @@ SUBS = [
     Sub("perturbed", kind="hyp", strategy=perturbed_cases, body=body_perturbed,
         budget={"quick": 8000, "thorough": 100000},
         desc="perturbed maps that complete, first sentence only"),
+    Sub("partial", kind="hyp", strategy=partial_cases, body=body_perturbed,
+        budget={"quick": 8000, "thorough": 100000},
+        desc="baits covering only a middle run of contigs (found/missing patterns inside a scaffold), first sentence only"),
 ]
 
 
